@@ -222,6 +222,7 @@ func (r *renderer) field(f *Field, syntax string) {
 }
 
 func (r *renderer) extendBlock(f *Field, syntax string) {
+	r.comment(f.ExtendComment)
 	st := r.tok("extend")
 	r.tok(typeText(f.Extendee))
 	r.tok("{")
